@@ -104,3 +104,47 @@ func ControlDepsWithin(b *ssa.BasicBlock) (deps []*ssa.BasicBlock, ok bool) {
 	}
 	return deps, true
 }
+
+// ControlConds returns the If instructions on which block b is (transitively)
+// control dependent in its function.
+func ControlConds(b *ssa.BasicBlock) []*ssa.If {
+	fn := b.Parent()
+	pd := PostDom(fn)
+	direct := func(x *ssa.BasicBlock) []*ssa.BasicBlock {
+		var res []*ssa.BasicBlock
+		for _, a := range fn.Blocks {
+			if len(a.Succs) != 2 {
+				continue
+			}
+			if _, isIf := a.Instrs[len(a.Instrs)-1].(*ssa.If); !isIf {
+				continue
+			}
+			if a != x && pd[a.Index][x.Index] {
+				continue
+			}
+			for _, s := range a.Succs {
+				if s == x || pd[s.Index][x.Index] {
+					res = append(res, a)
+					break
+				}
+			}
+		}
+		return res
+	}
+	var res []*ssa.If
+	seen := map[*ssa.BasicBlock]bool{b: true}
+	work := []*ssa.BasicBlock{b}
+	for len(work) > 0 {
+		x := work[len(work)-1]
+		work = work[:len(work)-1]
+		for _, a := range direct(x) {
+			if seen[a] {
+				continue
+			}
+			seen[a] = true
+			work = append(work, a)
+			res = append(res, a.Instrs[len(a.Instrs)-1].(*ssa.If))
+		}
+	}
+	return res
+}
